@@ -274,19 +274,42 @@ func init() {
 				return
 			}
 			want := map[string]string{"consistenthash": "ConsistentHash", "modhash": "ModHash"}
+			// selection sites: a static call of a selector's Select, or a Select through an interface variable
+			// that was bound to one of the selectors on the way (one site per way it can be bound)
+			type site struct {
+				pkg string
+				fs  []EdgeFact
+				pos token.Pos
+			}
+			var sites []site
 			eachInstr(fn, func(in ssa.Instruction) {
 				c := callCommon(in)
 				if c == nil {
 					return
 				}
-				sc := c.StaticCallee()
-				if sc == nil || sc.Name() != "Select" || sc.Pkg == nil {
+				if sc := c.StaticCallee(); sc != nil && sc.Name() == "Select" && sc.Pkg != nil {
+					sites = append(sites, site{sc.Pkg.Pkg.Name(), facts(in.Block()), in.Pos()})
 					return
 				}
-				pkg := sc.Pkg.Pkg.Name()
+				if c.IsInvoke() && c.Method.Name() == "Select" {
+					for _, vp := range splitPaths([]ssa.Value{c.Value}, in.Block()) {
+						v := vp.vals[0]
+						if mi, ok := v.(*ssa.MakeInterface); ok {
+							v = mi.X
+						}
+						if pt, ok := v.Type().Underlying().(*types.Pointer); ok {
+							if nt, ok := pt.Elem().(*types.Named); ok && nt.Obj().Pkg() != nil && strings.Contains(nt.Obj().Pkg().Path(), "/tars/selector/") {
+								sites = append(sites, site{nt.Obj().Pkg().Name(), vp.pathFacts(), in.Pos()})
+							}
+						}
+					}
+				}
+			})
+			for _, st := range sites {
+				pkg, in := st.pkg, st
 				var ht *int64
 				isHash := false
-				for _, f := range facts(in.Block()) {
+				for _, f := range st.fs {
 					cm, ok := normFact(f)
 					if !ok {
 						continue
@@ -303,11 +326,11 @@ func init() {
 				}
 				switch pkg {
 				case "consistenthash", "modhash":
-					r.Check(ht != nil && *ht == vals[want[pkg]] && isHash, fname(fn), pkg+".Select on its hash type", in.Pos(), "reached exactly for isHash && hashType == %s", "%s.Select is not reached exactly on the isHash && hashType == %s edge: hash-routed calls go to the wrong strategy", want[pkg])
+					r.Check(ht != nil && *ht == vals[want[pkg]] && isHash, fname(fn), pkg+".Select on its hash type", in.pos, "reached exactly for isHash && hashType == %s", "%s.Select is not reached exactly on the isHash && hashType == %s edge: hash-routed calls go to the wrong strategy", want[pkg])
 				case "roundrobin":
-					r.Check(ht == nil, fname(fn), "round robin is the default", in.Pos(), "reached when no hash routing applies", "round robin is selected on a hash-type edge")
+					r.Check(ht == nil, fname(fn), "round robin is the default", in.pos, "reached when no hash routing applies", "round robin is selected on a hash-type edge")
 				}
-			})
+			}
 		}})
 
 	register(&Rule{ID: "C14.R6", Props: []string{"C14"}, Min: 4, Needs: NeedMain,
@@ -423,6 +446,10 @@ func init() {
 					}
 					for i, l := range leaves {
 						if l == ssa.Value(search) {
+							continue
+						}
+						// Search returns a value in [0, n]: `Search(n, ..) % n` is the same wrap-around
+						if bo, isB := l.(*ssa.BinOp); isB && bo.Op == token.REM && bo.X == ssa.Value(search) && pathOf(bo.Y) == pathOf(search.Call.Args[0]) {
 							continue
 						}
 						k, isC := constInt(l)
